@@ -29,6 +29,10 @@ ASSUMPTIONS = [
     'the optimality theorems are about exact arithmetic; rounding enters only through the stated tolerances',
     'for ill-posed problems that pass the diagonal screening (near-singular but numerically factorisable) only the '
     'outcome class (status code, finite coefficients, no exception) is checked',
+    'non-finite input: a NaN / +-inf in invvar or xdata that reaches the banded normal equations is a failed fit (status -2, or -1 with '
+    'breakpoints dropped; C09.Model.screen_status_model judges status and mask from the captured IEEE diagonal and threshold); non-finite '
+    'ydata leaves A finite: scipy\'s finiteness check of the right-hand side (ValueError) is accepted, status 0 with non-finite '
+    'coefficients is not',
 ]
 
 def translate(ctx):
@@ -283,6 +287,37 @@ def gen_ill(rng, idx):
             'iterfit': {'maxiter': rng.choice([0, 2])}, 'refit': True}
 
 
+def gen_nonfinite(rng, idx):
+    """A well-supported problem with ONE non-finite entry (NaN, +inf, -inf) in invvar, xdata or ydata: at an interior point,
+    at the first / last point, at a point sitting exactly on a breakpoint (there some basis functions are exactly 0, so
+    0 * inf contaminates entries next to a clean one).  invvar / xdata contamination makes the banded normal equations
+    non-finite: the fit has failed and must say so through its status."""
+    base = gen_fit_once(rng, rng.randrange(6, 600))
+    while 'dtypes' in base or 'scale' in base or len(base['xs']) < 4:
+        base = gen_fit_once(rng, rng.randrange(6, 600))
+    target = ['w', 'x', 'w', 'y', 'w', 'x', 'y', 'w'][idx % 8]
+    val = ['nan', 'inf', '-inf'][(idx // 8 + idx % 8) % 3]
+    n = len(base['xs'])
+    where = (idx // 3) % 4
+    onknot = [i for i, x in enumerate(base['xs']) if x in base['bkpt']]
+    pos = 0 if where == 0 else (n - 1 if where == 1 else (rng.choice(onknot) if (where == 2 and onknot) else rng.randrange(1, n - 1)))
+    c = {'f': 'fit', 'kind': 'nonfinite', 'target': target, 'value': val, 'pos': pos, 'nord': base['nord'], 'bkpt': base['bkpt'],
+         'xs': list(base['xs']), 'ys': list(base['ys']), 'ws': list(base['ws']), 'refit': True,
+         'zero_weight_there': base['ws'][pos] == 0}
+    c[{'w': 'ws', 'x': 'xs', 'y': 'ys'}[target]][pos] = val
+    return c
+
+
+def ieee_le(a, b):
+    f = lambda v: float(v)       # noqa: E731  ('nan' / 'inf' / '-inf' strings or floats)
+    return f(a) <= f(b)
+
+
+def xql(v):
+    """IEEE double -> C09.Model.xq"""
+    return {'nan': 'XNaN', 'inf': 'XPInf', '-inf': 'XNInf'}[v] if isinstance(v, str) else '(XFin %s)' % C.qlit(v)
+
+
 def band_of(A, bw, n):
     ab = [[Fraction(0)] * (n + bw) for _ in range(bw)]
     for r in range(bw):
@@ -340,6 +375,7 @@ def correspond(ctx, proof_ok=True):
     calls = [gen_fit(rng, i) for i in range(ctx.n(72, 500))]
     calls += [gen_minimal(rng, i) for i in range(ctx.n(18, 120))]
     calls += [gen_ill(rng, i) for i in range(ctx.n(72, 300))]
+    calls += [gen_nonfinite(rng, i) for i in range(ctx.n(48, 240))]
     calls += [gen_chol(rng, i) for i in range(ctx.n(90, 600))]
     nb = 8
     outs = C.run_impl_parallel('c09_impl.py', [calls[i::nb] for i in range(nb)])
@@ -351,6 +387,7 @@ def correspond(ctx, proof_ok=True):
 
     terms, owners = [], []
     dist = {}
+    nstats = {}
     seen = set()
 
     def viol(sig, summary, c, r, failing=True, extra=None):
@@ -362,6 +399,12 @@ def correspond(ctx, proof_ok=True):
             rep['item'] = 'C09.Model.run_case'
         rep.update(extra or {})
         ctx.violation(sig, summary, rep, failing)
+
+    gch = sorted(set(sum([o.get('globals_changed', {}).get('by_import', []) + o.get('globals_changed', {}).get('by_calls', []) for o in outs], [])))
+    ctx.coverage['process_globals_changed'] = gch
+    if gch:
+        viol('C09:process-globals-changed', 'importing pydl.pydlutils.bspline / fitting changed process-global settings: %s' % gch,
+             {}, {'globals_changed': [o.get('globals_changed') for o in outs]}, failing=False)
 
     for i, (c, r) in enumerate(zip(calls, results)):
         key = '%s:%s:%s' % (c['f'], c['kind'], r.get('err') or (('status=%s' % r['status']) if 'status' in r else 'ret=%s' % (
@@ -375,7 +418,47 @@ def correspond(ctx, proof_ok=True):
                 c['nord'], sum(1 for w in c['ws'] if w > 0) - (len(gbm) - c['nord'] if gbm else 0), min(per) if per else -1,
                 r.get('err') or 'status=%s' % r.get('status'))
             dist[mk] = dist.get(mk, 0) + 1
-        if c['f'] == 'fit' and c['kind'] == 'well':
+        if c['f'] == 'fit' and c['kind'] == 'nonfinite':
+            tag = '%s=%s' % ({'w': 'invvar', 'x': 'xdata', 'y': 'ydata'}[c['target']], c['value'])
+            nk = 'nonfinite:%s:%s' % (tag, r.get('err') or 'status=%s' % r.get('status'))
+            nstats[nk] = nstats.get(nk, 0) + 1
+            meaning = {'meaning': 'failure is a status code: a fit whose normal equations are not finite has failed and must return -2 (or -1 with '
+                                  'breakpoints dropped), finite coefficients, and must not raise; C09_nonfinite_unflagged_is_status_minus2'}
+            if 'err' in r:
+                if c['target'] == 'y' and r['err'] == 'ValueError' and 'infs or NaNs' in r.get('msg', ''):
+                    # non-finite ydata: A is finite and positive definite, only the right-hand side is not -- outside the listed
+                    # failure causes; scipy's finiteness check of b is accepted, silent NaN coefficients (below) are not
+                    nstats['ydata:rejected-by-finiteness-check'] = nstats.get('ydata:rejected-by-finiteness-check', 0) + 1
+                    continue
+                viol('C09:fit:nonfinite:impl=%s' % r['err'],
+                     'bspline.fit with %s at point %d of %d (nord=%d) raised %s: %s' % (tag, c['pos'], len(c['xs']), c['nord'], r['err'], r.get('msg', '')),
+                     c, r, extra=meaning)
+                continue
+            st = r['status']
+            band_bad = 'alpha' in r and (any(isinstance(v, str) for row in r['alpha'] for v in row) or isinstance(r['mininf'], str))
+            nstats['band-non-finite' if band_bad else 'band-finite'] = nstats.get('band-non-finite' if band_bad else 'band-finite', 0) + 1
+            if not isinstance(st, int) or r.get('status_type') != 'int' or not -2 <= st <= 0 or not r.get('coeff_finite', True) or (st == 0 and not r['finite']):
+                viol('C09:fit:nonfinite:bad-outcome', 'bspline.fit with %s: status %r (%s), coefficients finite: %s' % (
+                    tag, st, r.get('status_type'), r.get('coeff_finite')), c, r, extra=meaning)
+                continue
+            rf = r.get('refit')
+            if rf is not None and ('err' in rf or not rf['finite'] or rf['statuses'][-1] == -1):
+                viol('C09:fit:nonfinite:refit:%s' % (('impl=' + rf['err']) if 'err' in rf else 'no-final-status'),
+                     'fitting again after status %s (as iterfit does) with %s: %s' % (rf.get('statuses'), tag, rf.get('err') or 'no final status'), c, r, extra=meaning)
+            if 'alpha' in r:
+                bw_ = c['nord']
+                nfull = len(r['alpha'][0]) - bw_
+                diag = r['alpha'][0][:nfull]
+                if band_bad and not any(isinstance(v, str) for v in diag) and not isinstance(r['mininf'], str):
+                    nstats['band-non-finite:off-diagonal-only'] = nstats.get('band-non-finite:off-diagonal-only', 0) + 1
+                if band_bad:
+                    flagged = sum(1 for v in diag if ieee_le(v, r['mininf']))
+                    nstats['band-non-finite:flagged-columns=%s' % ('0' if flagged == 0 else '>0')] = nstats.get('band-non-finite:flagged-columns=%s' % ('0' if flagged == 0 else '>0'), 0) + 1
+                terms.append('(CNonFin %s %d%%nat %s %s %s %s %s)' % (
+                    bl(r['mask_before']), c['nord'], C.coq_list([xql(v) for v in diag]), xql(r['mininf']),
+                    C.boollit(not any(isinstance(v, str) for row in r['alpha'] for v in row)), '%s%%Z' % C.zlit(st), bl(r['mask_after'])))
+                owners.append(i)
+        elif c['f'] == 'fit' and c['kind'] == 'well':
             if 'err' in r:
                 viol('C09:fit:well-supported:impl=%s' % r['err'], 'bspline.fit raised %s on a well-supported problem' % r['err'], c, r)
                 continue
@@ -489,7 +572,7 @@ def correspond(ctx, proof_ok=True):
         'rule': 'one evaluation = one fit / factorisation problem run on the real code; well-supported fits and SPD '
                 'factorisations are compared in Coq with the certified dense solve / chol_ok / solve_ok, zero-support fits '
                 'with the status model; the other ill-posed problems are judged by outcome class',
-        'cases_by_kind_outcome': dist, 'coq_cases': len(terms), 'coq_eval_s': round(cc.coq_seconds, 1),
+        'cases_by_kind_outcome': dist, 'nonfinite_inputs': nstats, 'coq_cases': len(terms), 'coq_eval_s': round(cc.coq_seconds, 1),
         'model_disagreements': sum(1 for v in verdicts if v & 1),
         'spec_violations': sum(1 for v in verdicts if v & 2),
         'samples': [{'call': {k: v for k, v in calls[i].items() if k != 'extra'},
